@@ -91,7 +91,23 @@ def value_set(facts, body, e, depth=0):
                 out |= sv
             return out
     if k == "field" and e[1][0] == "downcast" and e[1][2] == "Some":
-        return option_payload_set(facts, body, e[1][1], depth + 1)
+        r = option_payload_set(facts, body, e[1][1], depth + 1)
+        if r is not None:
+            return r
+    if k == "field":
+        # a component of a value built elsewhere — in another arm, or in a private function that returns it
+        # (`Some((radix, digits))`): the constructors that can have built it, read through calls, phis and projections
+        alts = constructed(facts, body, e)
+        if alts is not None:
+            out = set()
+            for (b2, x2) in alts:
+                if strip_refs(x2) == e and b2 is body:
+                    return None
+                sv = value_set(facts, b2, x2, depth + 1)
+                if sv is None:
+                    return None
+                out |= sv
+            return out
     if k == "field" and body.kind == "closure" and strip_refs(e[1]) == ("arg", 1):
         cr = body.creator()
         if cr is None:
@@ -119,6 +135,51 @@ def value_set(facts, body, e, depth=0):
             cg, _ = facts.callgraph()
         return out if n else None
     return None
+
+
+def constructed(facts, body, e, depth=0):
+    """[(body, expr)]: the expressions one of which `e` evaluates to, with projections (`.i`, `as Variant`) applied to
+    the constructors they select — followed through several definitions (phi) and through the return value of local
+    functions.  None when a projection meets something that is not a visible constructor."""
+    if depth > 10:
+        return None
+    e = strip_refs(e)
+    if e[0] == "phi":
+        out = []
+        for x in e[2]:
+            r = constructed(facts, body, x, depth + 1)
+            if r is None:
+                return None
+            out += r
+        return out
+    if e[0] == "call" and e[1] and e[1].get("local"):
+        cb = facts.body(e[1]["key"])
+        if cb is not None and cb.kind == "fn":
+            return constructed(facts, cb, cb.trace(0), depth + 1)
+        return [(body, e)]
+    if e[0] in ("field", "downcast"):
+        inner = constructed(facts, body, e[1], depth + 1)
+        if inner is None:
+            return None
+        out = []
+        for (b2, x2) in inner:
+            x2 = strip_refs(x2)
+            if x2[0] != "agg":
+                return None
+            if e[0] == "downcast":
+                if x2[1].get("variant") == e[2]:
+                    out.append((b2, x2))
+                elif x2[1].get("variant") is None:
+                    return None
+                continue
+            if e[2] >= len(x2[2]):
+                return None
+            r = constructed(facts, b2, x2[2][e[2]], depth + 1)
+            if r is None:
+                return None
+            out += r
+        return out
+    return [(body, e)]
 
 
 def _const_table_rows(facts, body, e):
@@ -254,6 +315,8 @@ def justify(facts, roles, arity, src, table):
         if e[0] == "call" and e[1] and e[1]["path"].endswith("::len"):
             return "J4 capacity is the length of an existing in-memory collection"
         return None
+    if rule == "strslice":
+        return j_str_slice(facts, b, bi, t)
     if rule == "floatsum":
         targs = t["callee"].get("targs", [])
         if targs and all(x in ("f64", "f32") or not re.search(r"\b[iu](8|16|32|64|128|size)\b", x) for x in targs) and any(x in ("f64", "f32") for x in targs):
@@ -262,24 +325,79 @@ def justify(facts, roles, arity, src, table):
     return None
 
 
+CONVERSION = re.compile(r"as std::convert::(TryInto|Into|TryFrom|From)<.*>>::(try_into|into|try_from|from)$|^std::convert::(TryInto|Into|TryFrom|From)::(try_into|into|try_from|from)$")
+ABS_CALL = re.compile(r"^core::num::<impl [iu](8|16|32|64|128|size)>::(unsigned_abs|abs|abs_diff)$")
+
+
+def _same_value(e):
+    """Peel what does not change an integer's value: references, `?`/ok()/payload plumbing, integer conversions that
+    succeeded, widening casts."""
+    while True:
+        e2 = strip_payload(e)
+        if e2[0] == "call" and e2[1] and CONVERSION.search(e2[1]["path"]) and len(e2[2]) == 1:
+            e = e2[2][0]
+            continue
+        return e2
+
+
+def int_interval(body, e, at, depth=0):
+    """[lo, hi] (None = unbounded) of an integer expression at block `at`, from constants, from the comparisons that
+    hold on every path to `at` (core.implied_comparisons: dominating tests, whatever statement spells them) and
+    through |x|."""
+    from .core import implied_comparisons
+    e = _same_value(e)
+    if e[0] == "const":
+        v = const_value(e[1])
+        if isinstance(v, int) and not isinstance(v, bool):
+            return (v, v)
+        return (None, None)
+    lo = hi = None
+    if e[0] == "call" and e[1] and ABS_CALL.match(e[1]["path"]) and e[1]["path"].endswith(("unsigned_abs", "::abs")) and depth < 3:
+        xl, xh = int_interval(body, e[2][0], at, depth + 1)
+        if xl is not None and xl > 0:
+            lo = xl
+        elif xh is not None and xh < 0:
+            lo = -xh
+        else:
+            lo = 0
+        if xl is not None and xh is not None:
+            hi = max(abs(xl), abs(xh))
+    tys = ""
+    for (op, x, y) in implied_comparisons(body, at):
+        x, y = _same_value(x), _same_value(y)
+        if y == e and x[0] == "const":
+            x, y, op = y, x, CMP_FLIP[op]
+        if x != e or y[0] != "const":
+            continue
+        k = const_value(y[1])
+        if not isinstance(k, int) or isinstance(k, bool):
+            continue
+        if op in ("Ge", "Eq"):
+            lo = k if lo is None else max(lo, k)
+        if op == "Gt":
+            lo = k + 1 if lo is None else max(lo, k + 1)
+        if op in ("Le", "Eq"):
+            hi = k if hi is None else min(hi, k)
+        if op == "Lt":
+            hi = k - 1 if hi is None else min(hi, k - 1)
+        if op == "Ne" and lo is not None and lo == k:
+            lo = k + 1
+    return (lo, hi)
+
+
 def guarded_sub(b, bi, rv):
-    """a - b under a dominating test that a >= b (or a > b) of the same operands."""
-    from .core import edge_dominates, bool_edge
+    """a - b cannot wrap: a test that a >= b (or a > b) of the same operands holds on every path here, or the interval
+    of a (from the dominating comparisons, through |x| and value-preserving conversions) lies above that of b."""
+    from .core import implied_comparisons
     a, c = strip_refs(b.trace(rv["a"])), strip_refs(b.trace(rv["b"]))
-    for sb in b.reachable():
-        tt = b.blocks[sb]["term"]
-        if tt["k"] != "SwitchInt" or tt.get("dty") != "bool":
-            continue
-        e = strip_refs(b.trace(tt["discr"]))
-        if e[0] != "binop" or e[1] not in ("Gt", "Ge", "Lt", "Le"):
-            continue
-        x, y = strip_refs(e[2]), strip_refs(e[3])
-        for truth in (True, False):
-            op = e[1] if truth else {"Gt": "Le", "Ge": "Lt", "Lt": "Ge", "Le": "Gt"}[e[1]]
-            implies = (op in ("Gt", "Ge") and (x, y) == (a, c)) or (op in ("Lt", "Le") and (y, x) == (a, c))
-            if implies and edge_dominates(b, sb, bool_edge(b, sb, truth), bi):
-                return True
-    return False
+    for (op, x, y) in implied_comparisons(b, bi):
+        if (op in ("Gt", "Ge") and (x, y) == (a, c)) or (op in ("Lt", "Le") and (y, x) == (a, c)):
+            return "a test that a >= b holds on every path to the subtraction"
+    alo, _ = int_interval(b, a, bi)
+    _, chi = int_interval(b, c, bi)
+    if alo is not None and chi is not None and alo >= chi:
+        return "the minuend is at least %d and the subtrahend at most %d on every path to the subtraction" % (alo, chi)
+    return None
 
 
 def j_counter(b, bi):
@@ -508,8 +626,9 @@ def j_assert(facts, b, bi, t):
                 return j
         for s in b.blocks[bi]["stmts"]:
             if s["k"] == "Assign" and s["rv"]["k"] == "BinaryOp" and s["rv"]["op"].startswith("Sub") and re.match(r"^u(8|16|32|64|128|size)$", s["rv"].get("opty") or ""):
-                if guarded_sub(b, bi, s["rv"]):
-                    return "J1 guard: unsigned a - b under a dominating test that a >= b"
+                g = guarded_sub(b, bi, s["rv"])
+                if g:
+                    return "J1 guard: unsigned a - b where " + g
         return None
     if msg in ("DivisionByZero", "RemainderByZero"):
         # cond = Eq(divisor, 0) expected false; find divisor in the BinaryOp that follows
@@ -535,6 +654,113 @@ def j_unwrap(facts, b, bi, t, variant):
         if edge_dominates(b, sb, t_some, bi) and t_some != t_none:
             return "J1 discriminant guard: dominated by the %s edge of the test at bb%d on the same value" % (variant, sb)
     return None
+
+
+# ------------------------------------------------------------- str slicing
+# `s[a..b]` panics unless every bound is a char boundary of s that is <= s.len() (and a <= b).  A bound is read as an
+# *offset of s* from where its value comes from — never from how the slicing is spelled:
+#   0 and s.len(); the position reported by a search of s (find/rfind, the positions of match_indices/char_indices);
+#   a constant k when every path here has established that s has at least k bytes and that byte k-1 is ASCII (so byte k
+#   starts a character); a choice between offsets (phi, unwrap_or).  A count of characters, a length of another string,
+#   a number taken from an operand are not offsets: the source stays unjustified.
+STR_SEARCH = re.compile(r"^core::str::<impl str>::(find|rfind)$")
+STR_POSITIONS = re.compile(r"^core::str::<impl str>::(match_indices|rmatch_indices|char_indices)$")
+ITEM_GETTER = re.compile(r"(^std::iter::(Iterator|DoubleEndedIterator)::|as std::iter::(Iterator|DoubleEndedIterator)>::)(next|next_back|nth|nth_back|last|find|rfind|min|max)$")
+STR_LEN = ("core::str::<impl str>::len", "std::string::String::len")
+
+
+def _bytes_of(e, recv):
+    """e is the byte view of the string recv"""
+    e = strip_refs(e)
+    return e[0] == "call" and e[1] and e[1]["path"] in ("core::str::<impl str>::as_bytes", "std::string::String::as_bytes") and e[2] and strip_refs(e[2][0]) == recv
+
+
+def _ascii_prefix(b, at, recv, k):
+    from .core import implied_comparisons
+    long_enough = False
+    for (op, x, y) in implied_comparisons(b, at):
+        x, y = strip_refs(x), strip_refs(y)
+        if y[0] != "const" and x[0] == "const":
+            x, y, op = y, x, CMP_FLIP[op]
+        is_len = (x[0] == "unop" and x[1] == "PtrMetadata" and _bytes_of(x[2], recv)) or (x[0] == "call" and x[1] and ((x[1]["path"] in STR_LEN and strip_refs(x[2][0]) == recv) or (x[1]["path"] == "core::slice::<impl [T]>::len" and _bytes_of(x[2][0], recv))))
+        if not is_len or y[0] != "const" or not isinstance(const_value(y[1]), int):
+            continue
+        v = const_value(y[1])
+        if (op in ("Ge", "Eq") and v >= k) or (op == "Gt" and v >= k - 1):
+            long_enough = True
+    if not long_enough:
+        return None
+    for sb in sorted(b.reachable()):
+        tt = b.blocks[sb]["term"]
+        if tt["k"] != "SwitchInt" or not b.dominates(sb, at):
+            continue
+        e = strip_refs(b.trace(tt["discr"]))
+        if e[0] == "cindex" and e[2] == k - 1 and not e[3] and _bytes_of(e[1], recv):
+            arm_targets = {tg for _, tg in tt["arms"]}
+            if tt["otherwise"] in arm_targets or at in b.reachable(start=tt["otherwise"]):
+                continue
+            vals = [int(v) for v, _ in tt["arms"]]
+            if vals and all(0 <= v < 128 for v in vals):
+                return "the string has at least %d bytes and byte %d is one of the ASCII characters %s on every path here, so byte %d starts a character" % (k, k - 1, "".join(chr(v) for v in vals), k)
+    return None
+
+
+def str_offset(facts, b, at, recv, e, depth=0):
+    """Why the integer expression e is a char-boundary offset (<= len) of the string expression recv, or None."""
+    if depth > 6:
+        return None
+    e0 = strip_refs(e)
+    if e0[0] == "phi":
+        ws = [str_offset(facts, b, at, recv, x, depth + 1) for x in e0[2]]
+        return "one of: " + " / ".join(ws) if all(ws) else None
+    if e0[0] == "call" and e0[1] and e0[1]["path"] == "std::option::Option::<T>::unwrap_or" and len(e0[2]) == 2:
+        ws = [str_offset(facts, b, at, recv, x, depth + 1) for x in e0[2]]
+        return "%s, else %s" % tuple(ws) if all(ws) else None
+    e1 = strip_payload(e)
+    if e1[0] == "const":
+        v = const_value(e1[1])
+        if v == 0 and not isinstance(v, bool):
+            return "0"
+        if isinstance(v, int) and not isinstance(v, bool) and v > 0:
+            return _ascii_prefix(b, at, recv, v)
+        return None
+    if e1[0] == "call" and e1[1] and e1[1]["path"] in STR_LEN and strip_refs(e1[2][0]) == recv:
+        return "the string's own len()"
+    if e1[0] == "call" and e1[1] and STR_SEARCH.match(e1[1]["path"]) and strip_refs(e1[2][0]) == recv:
+        return "the position %s reports for the same string" % e1[1]["path"].rsplit("::", 1)[-1]
+    if e1[0] == "field" and e1[2] == 0:
+        item = strip_payload(e1[1])
+        if item[0] == "call" and item[1] and ITEM_GETTER.search(item[1]["path"]) and item[2]:
+            it = strip_refs(item[2][0])
+            hops = 0
+            while it[0] == "call" and it[1] and ITEM_KEEPING.search(it[1]["path"]) and it[2] and hops < 8:
+                it = strip_refs(it[2][0])
+                hops += 1
+            if it[0] == "call" and it[1] and STR_POSITIONS.match(it[1]["path"]) and strip_refs(it[2][0]) == recv:
+                return "a position yielded by %s of the same string" % it[1]["path"].rsplit("::", 1)[-1]
+    return None
+
+
+def j_str_slice(facts, b, bi, t):
+    if len(t["args"]) != 2:
+        return None
+    recv = strip_refs(b.trace(t["args"][0]))
+    rng = strip_refs(b.trace(t["args"][1]))
+    if rng[0] != "agg":
+        return None
+    adt = (rng[1].get("adt") or "")
+    if adt == "std::ops::RangeFull":
+        return "J1 offsets: s[..] is the whole string"
+    if adt not in ("std::ops::RangeFrom", "std::ops::RangeTo", "std::ops::Range"):
+        return None
+    ws = [str_offset(facts, b, bi, recv, x) for x in rng[2]]
+    if not ws or not all(ws):
+        return None
+    if adt == "std::ops::Range":
+        lo = strip_payload(rng[2][0])
+        if not (lo[0] == "const" and const_value(lo[1]) == 0):
+            return None          # start <= end is not read
+    return "J1 offsets: every bound of the slice is a char-boundary offset of the sliced string itself (%s)" % "; ".join(ws)
 
 
 class Arity:
